@@ -9,6 +9,7 @@
 #include "masking/ascon-masked-word.h"
 #include "masking/ascon-masked-state.h"
 
+extern void ascon_backend_free(ascon_state_t *state);   /* register-scrubbing entry point of the assembly back end */
 struct abi_report { uint64_t rsp_before, rsp_after; };
 uint64_t abi_call(void *fn, void *a1, void *a2, void *a3, void *a4, struct abi_report *rep);
 static const char *bits(uint64_t m) { static char b[128]; b[0] = 0; const char *n[] = {"rbx", "rbp", "r12", "r13", "r14", "r15", "rsp", "direction-flag", "write-above-return-address"}; for (int i = 0; i < 9; i++) if (m & (1u << i)) { strcat(b, n[i]); strcat(b, " "); } return b; }
@@ -30,6 +31,8 @@ int main(void)
             uint8_t in[40], exp[40], got[40]; memset(in, 0, 40); if (i >= 0) { setbit(in, i); setbit(in, (i * 13 + 5) % 320); } else hx_fill(in, 40, HX_P_DENSE, r);
             ascon_init(st); ascon_overwrite_bytes(st, in, 0, 40);
             chk("ascon_permute", abi_call((void *)ascon_permute, st, (void *)(uintptr_t)r, 0, 0, &rep));
+            { uint8_t raw[sizeof(ascon_state_t)]; memcpy(raw, st, sizeof raw); chk("ascon_backend_free", abi_call((void *)ascon_backend_free, st, 0, 0, 0, &rep));
+              if (memcmp(raw, st, sizeof raw)) hx_fail("abi:ascon_backend_free:value", "ascon_backend_free modified the state memory"); }
             ascon_extract_bytes(st, got, 0, 40); ascon_free(st); memcpy(exp, in, 40); ref_permute(exp, r);
             if (memcmp(got, exp, 40)) hx_fail("abi:ascon_permute:value", "result differs from the specification (first_round %d)", r);
         }
